@@ -224,7 +224,13 @@ def expect(case, vb, va, fva, fvb):
             near = NEAR.get(b['name'])
             if near is None:
                 raise ValueError('unknown block name %r' % b['name'])
+            doc_only = b['name'].startswith('SECTION:') and all(n == 'desc' for n, a in b['items'])
             for i in near:
+                if doc_only and not i.startswith('docsection['):
+                    # a section that only carries a description documents the type: nothing but its <doc>
+                    # may change, in particular the type's own (skip)/(foreign)/attributes still hold
+                    ex.y(i, ('info:doc', 'info:doc@pos'))
+                    continue
                 ex.y(i, None)
                 ne = ID2EL.get(i)
                 if ne is not None and 'gi' in ne:
